@@ -51,8 +51,8 @@ const (
 	// history (what block rewards and sender nonces do on a chain), so that a state
 	// root is never produced twice. The snapshot tree is keyed by state root and is
 	// not meant to see a root again (see the report of this engine).
-	cb   = maxAddrs
-	nAcc = maxAddrs + 1
+	cb       = maxAddrs
+	nAcc     = maxAddrs + 1
 	nSlots   = 4
 	maxDepth = 6
 )
@@ -479,15 +479,15 @@ type msnap struct {
 
 // handle is one StateDB together with its model.
 type handle struct {
-	sdb     *state.StateDB
-	m       mstate
-	snaps   []msnap
-	ops     []rop // surviving operations since genesis
-	tx      uint64
-	inTx    int  // operations/snapshots since the last transaction boundary
-	isCopy  bool // obtained through Copy (for signatures)
-	midCopy bool // copied in the middle of a transaction
-	via     string
+	sdb      *state.StateDB
+	m        mstate
+	snaps    []msnap
+	ops      []rop // surviving operations since genesis
+	tx       uint64
+	inTx     int  // operations/snapshots since the last transaction boundary
+	isCopy   bool // obtained through Copy (for signatures)
+	midCopy  bool // copied in the middle of a transaction
+	via      string
 	lastRoot common.Hash // root of the last commit / the root it was opened on
 	// GetLogs annotates the logs it returns with the block number it is given; every
 	// handle uses its own number, so a log object shared between a copy and its
@@ -717,7 +717,7 @@ type runner struct {
 	genWork  int  // store accesses granted to generators
 	blockNos uint64
 	blockCtr uint64 // nonce of the extra account, raised by every commit
-	pace     int  // how often the tape lets the generator run
+	pace     int    // how often the tape lets the generator run
 
 	reverts, commits, undone int
 }
